@@ -527,14 +527,68 @@ fn packets7(run: &Arc<Run>, tier: Tier) {
     run.merge_classes(lc);
 }
 
+/// Compressed payloads whose first data bytes run through every ordered pair of byte values
+/// followed by one of 8 third bytes (then zeros, so that the writer chooses compression): every
+/// stored code of the built-in table is emitted at every bit offset with a variety of bits after it.
+fn pair_payloads(run: &Arc<Run>) {
+    const THIRD: [u8; 8] = [0x00, 0x01, 0x20, 0x61, 0x80, 0xf8, 0xfe, 0xff];
+    let lc = (0..65536u32 * 8)
+        .into_par_iter()
+        .fold(LocalClasses::new, |mut lc, i| {
+            let (p, b, s) = ((i >> 11) as u8, (i >> 3) as u8, THIRD[(i & 7) as usize]);
+            let mut data = vec![p, b, s];
+            data.extend(std::iter::repeat(0u8).take(40 + (i % 3) as usize));
+            let payload = wire::chunk(false, &data, None);
+            let payload7 = wire::chunk(true, &data, None);
+            lc.eval();
+            let r = vp_core::catch(|| -> Result<&'static str, String> {
+                let mut comp = false;
+                {
+                    let pk = p6::Packet::Connected(p6::ConnectedPacket { ack: 5, token: None, type_: p6::ConnectedPacketType::Chunks(false, 1, &payload) });
+                    let mut out = [0u8; 1400];
+                    let bytes = pk.write(&mut out[..]).map_err(|e| format!("0.6 write failed: {:?}", e))?;
+                    comp |= bytes[0] & wire::F6_COMPRESSION != 0;
+                    let mut w: Vec<p6::Warning> = Vec::new();
+                    let mut buf = [0u8; 1400];
+                    match p6::Packet::read(&mut w, bytes, Some(false), &mut buf[..]) {
+                        Ok(p6::Packet::Connected(p6::ConnectedPacket { ack: 5, token: None, type_: p6::ConnectedPacketType::Chunks(false, 1, d) })) if d == &payload[..] && w.is_empty() => {}
+                        other => return Err(format!("0.6: read back {:?} (warnings {:?})", other.map(|_| "a different packet"), w)),
+                    }
+                }
+                {
+                    let pk = p7::Packet::Connected(p7::ConnectedPacket { ack: 5, token: p7::Token([1, 2, 3, 4]), type_: p7::ConnectedPacketType::Chunks(false, 1, &payload7) });
+                    let mut out = [0u8; 1400];
+                    let bytes = pk.write(&mut out[..]).map_err(|e| format!("0.7 write failed: {:?}", e))?;
+                    comp |= bytes[0] & wire::F7_COMPRESSION != 0;
+                    let mut w: Vec<p7::Warning> = Vec::new();
+                    let mut buf = [0u8; 1400];
+                    match p7::Packet::read(&mut w, bytes, &mut buf[..]) {
+                        Ok(p7::Packet::Connected(p7::ConnectedPacket { ack: 5, type_: p7::ConnectedPacketType::Chunks(false, 1, d), .. })) if d == &payload7[..] && w.is_empty() => {}
+                        other => return Err(format!("0.7: read back {:?} (warnings {:?})", other.map(|_| "a different packet"), w)),
+                    }
+                }
+                Ok(if comp { "pair-payload:compressed" } else { "pair-payload:plain" })
+            });
+            match r {
+                Ok(Ok(c)) => lc.class(c, || json!({"first_bytes": [p, b, s]})),
+                Ok(Err(d)) => viol(run, "c05:pair-payload-roundtrip", d, json!({"first_bytes": [p, b, s], "zeros_after": 40 + (i % 3)})),
+                Err(pn) => viol(run, &format!("c05:pair-payload:{}", vp_core::panic_sig(&pn)), pn, json!({"first_bytes": [p, b, s]})),
+            }
+            lc
+        })
+        .reduce(LocalClasses::new, |a, b| a.merge(b));
+    run.merge_classes(lc);
+}
+
 fn main() {
     let run = Run::new("C05", "exploration");
     headers(&run);
     packets6(&run, run.tier);
     packets7(&run, run.tier);
+    pair_payloads(&run);
     run.assume("reader told the true token mode; the degenerate value 'zero chunks and no resend request' is exempt from the no-warning clause (the repository's own tests set it aside)");
     run.finish(
-        "all 2^24 0.6 packet headers, all 2^16/2^24 0.6 and 0.7 chunk headers, 5 x 2^24 0.7 packet headers, all 0.7 connless first bytes x 25 token pairs, all in-range field tuples; every packet kind x token x ack x payload length 0..max x 4 content classes written and read back (quick: all 1024 acks only for lengths <= 8, 6 acks otherwise); a case is non-trivial-distinct by (sweep, canonical/kind, token, compression outcome)",
+        "all 2^24 0.6 packet headers, all 2^16/2^24 0.6 and 0.7 chunk headers, 5 x 2^24 0.7 packet headers, all 0.7 connless first bytes x 25 token pairs, all in-range field tuples; every packet kind x token x ack x payload length 0..max x 4 content classes written and read back (quick: all 1024 acks only for lengths <= 8, 6 acks otherwise); compressed chunk payloads whose first bytes run through every ordered pair of byte values followed by one of 8 third bytes; a case is non-trivial-distinct by (sweep, canonical/kind, token, compression outcome)",
         true,
     );
 }
